@@ -219,3 +219,77 @@ theorem zernikeZ_rot90_normSq (sqrt : α → α) (pow : α → ℕ → α) (eps 
 end field
 
 end Mahotas.C19
+
+/-! ## intensity scaling on the full model, and rotation by 180° -/
+
+namespace Mahotas.C19
+open Mahotas
+
+section scale
+variable {α : Type} [Field α] [LinearOrder α] [IsStrictOrderedRing α]
+
+/-- a selected pixel of the image scaled by `s` -/
+def scaleRec (s : α) (r : α × (α × α) × α) : α × (α × α) × α := (r.1, r.2.1, s * r.2.2)
+
+theorem zRec_scale (s : α) (hs : 0 < s) (dn xn yn p : α) :
+    zRec dn xn yn (s * p) = (zRec dn xn yn p).map (scaleRec s) := by
+  unfold zRec
+  have hp : 0 < s * p ↔ 0 < p := ⟨fun h => (pos_iff_pos_of_mul_pos h).1 hs, fun h => mul_pos hs h⟩
+  by_cases h : dn ≤ 1 ∧ 0 < p
+  · rw [if_pos h, if_pos ⟨h.1, hp.2 h.2⟩]; rfl
+  · rw [if_neg h, if_neg (fun h' => h ⟨h'.1, hp.1 h'.2⟩)]; rfl
+
+theorem zernikeSel_scale (sqrt : α → α) (eps : α) (R C : ℕ) (im : ℕ → ℕ → α) (c0 c1 radius s : α) (hs : 0 < s) :
+    zernikeSel 0 1 Nat.cast sqrt eps R C (fun y x => s * im y x) c0 c1 radius =
+      (zernikeSel 0 1 Nat.cast sqrt eps R C im c0 c1 radius).map (scaleRec s) := by
+  rw [zernikeSel_eq, zernikeSel_eq, List.map_flatMap]
+  refine List.flatMap_congr fun y _ => ?_
+  rw [List.map_filterMap]
+  refine List.filterMap_congr fun x _ => ?_
+  unfold zPix
+  simp only
+  rw [zRec_scale s hs]
+
+omit [LinearOrder α] [IsStrictOrderedRing α] in
+theorem zTerm_scale (cast : ℕ → α) (pow : α → ℕ → α) (n l : ℕ) (tot s : α) (hs : s ≠ 0) (r : α × (α × α) × α) :
+    zTerm cast pow n l (s * tot) (scaleRec s r) = zTerm cast pow n l tot r := by
+  unfold zTerm scaleRec
+  simp only
+  rw [mul_div_mul_left _ _ hs]
+
+/-- **multiplying every pixel by `s > 0` leaves every `z_nl` unchanged** (full model) -/
+theorem zernikeZ_scale (sqrt : α → α) (pow : α → ℕ → α) (eps pi : α) (R C : ℕ) (im : ℕ → ℕ → α)
+    (c0 c1 radius s : α) (hs : 0 < s) (n l : ℕ) :
+    zernikeZ 0 1 Nat.cast sqrt pow eps pi R C (fun y x => s * im y x) c0 c1 radius n l =
+      zernikeZ 0 1 Nat.cast sqrt pow eps pi R C im c0 c1 radius n l := by
+  rw [zernikeZ_eq, zernikeZ_eq, zernikeSel_scale sqrt eps R C im c0 c1 radius s hs, List.map_map, List.map_map]
+  have htot : ((zernikeSel 0 1 Nat.cast sqrt eps R C im c0 c1 radius).map
+      ((fun r : α × (α × α) × α => r.2.2) ∘ scaleRec s)).sum =
+      s * ((zernikeSel 0 1 Nat.cast sqrt eps R C im c0 c1 radius).map fun r => r.2.2).sum := by
+    rw [← sum_map_mul_left', List.map_map]; rfl
+  rw [htot]
+  congr 2
+  apply List.map_congr_left
+  intro r _
+  exact zTerm_scale _ _ _ _ _ s (ne_of_gt hs) r
+
+end scale
+
+section rot180
+variable {α : Type} [Field α] [LinearOrder α]
+
+/-- **rotation by 180°** (two quarter turns): `z_nl ↦ (i^l)² z_nl = (−1)^l z_nl` -/
+theorem zernikeZ_rot180 (sqrt : α → α) (pow : α → ℕ → α) (eps pi : α) (R C : ℕ) (im : ℕ → ℕ → α)
+    (c0 c1 radius : α) (n l : ℕ) :
+    zernikeZ 0 1 Nat.cast sqrt pow eps pi R C (fun i j => im (R - 1 - i) (C - 1 - j))
+        ((R : α) - 1 - c0) ((C : α) - 1 - c1) radius n l =
+      cxMul (cxPow 0 1 (0, 1) l) (cxMul (cxPow 0 1 (0, 1) l)
+        (zernikeZ 0 1 Nat.cast sqrt pow eps pi R C im c0 c1 radius n l)) := by
+  have h1 := zernikeZ_rot90 sqrt pow eps pi R C im c0 c1 radius n l
+  have h2 := zernikeZ_rot90 sqrt pow eps pi C R (fun i j => im j (C - 1 - i)) ((C : α) - 1 - c1) c0 radius n l
+  rw [h1] at h2
+  exact h2
+
+end rot180
+
+end Mahotas.C19
